@@ -198,6 +198,7 @@ class SimGitHub:
         self.served_branch = {}   # branch -> sha
         self.served_pr = {}       # number -> {'head', 'labels', 'listed'}
         self.served_chk = {}      # number -> {'sha', 'review', 'nodes': {name: (typename, state, required)}, 'mixed'}
+        self.pending_chk = {}     # number -> the same, pages of an unfinished query series
         self.await_reobserve = {}  # branch -> CI was told a merge succeeded and has not looked at the branch since
         self.unacked_merge = {}   # branch -> a merge was applied but CI got an error for it
         self.merge_epoch = {}
@@ -362,9 +363,11 @@ class SimGitHub:
             if rollup['contexts']['pageInfo']['hasNextPage']:
                 self.ctx.probe('graphql_paged')
         await self._leg()
-        snap = self.served_chk.get(number)
+        # an answer counts as served to CI once its last page has been delivered: a query series that breaks off
+        # between pages leaves the previously served answer in place (CI discards partial results, legitimately)
+        snap = self.pending_chk.get(number)
         if cursor is None or snap is None:
-            snap = self.served_chk[number] = {'sha': head, 'review': review, 'nodes': {}, 'mixed': False}
+            snap = self.pending_chk[number] = {'sha': head, 'review': review, 'nodes': {}, 'mixed': False}
         elif snap['sha'] != head:
             snap['mixed'] = True
         for nd in nodes:
@@ -374,7 +377,10 @@ class SimGitHub:
                 snap['nodes'][nd['name']] = ('CheckRun', nd['conclusion'], nd['isRequired'])
                 if nd['conclusion'] is None and nd['isRequired']:
                     self.ctx.probe('checkrun_null_conclusion_served')
-        self.log.add('github', 'serve_checks', number, head, review or '-',
+        last = rollup is None or not rollup['contexts']['pageInfo']['hasNextPage']
+        if last:
+            self.served_chk[number] = self.pending_chk.pop(number)
+        self.log.add('github', 'serve_checks', number, head, review or '-', int(last),
                      tuple((k, v[1] or '-', int(v[2])) for k, v in sorted(snap['nodes'].items())))
         return {'data': {'repository': {'pullRequest': {
             'reviewDecision': review,
